@@ -1,6 +1,9 @@
 // C12 correspondence: real consensus/tendermint state machines vs the extracted Coq model (step), the
 // local safety monitor (audit) on the implementation's own event trace, the threshold functions f/q,
 // and a small network simulation (real instances + Byzantine script) searching for disagreeing commits.
+// ProcessSync is one more kind of call in the generated sequences (model: process_sync); ProcessWAL is tied by
+// replaying the log every case wrote into a second real instance and a second model (process_wal) and by
+// requiring, on log-disciplined runs, the state and the actions of the live instance (C12_wal_replay_same_state).
 package main
 
 import (
@@ -50,7 +53,7 @@ type Block struct {
 
 // In is one call of the state machine.
 type In struct {
-	K    string `json:"k"` // start | prop | pv | pc | to
+	K    string `json:"k"` // start | prop | pv | pc | to | sync
 	H    uint64 `json:"h,omitempty"`
 	R    int    `json:"r"`
 	From int    `json:"from,omitempty"`
@@ -58,6 +61,7 @@ type In struct {
 	Val  uint64 `json:"val,omitempty"`
 	ID   int64  `json:"id,omitempty"` // -1 = nil
 	Step int    `json:"step,omitempty"`
+	Sync []In   `json:"sync,omitempty"` // K = sync (ProcessSync): Sync[0] is the proposal, the rest are the precommits
 }
 
 func (i In) String() string {
@@ -74,6 +78,17 @@ func (i In) String() string {
 		return fmt.Sprintf("%s %d %d %d %s", i.K, i.H, i.R, i.From, id)
 	case "to":
 		return fmt.Sprintf("to %d %d %d", i.Step, i.H, i.R)
+	case "sync":
+		p := i.Sync[0]
+		parts := []string{fmt.Sprintf("sync %d %d %d %d %d", p.H, p.R, p.From, p.VR, p.Val)}
+		for _, v := range i.Sync[1:] {
+			id := "-"
+			if v.ID >= 0 {
+				id = strconv.FormatInt(v.ID, 10)
+			}
+			parts = append(parts, fmt.Sprintf("%d %d %d %s", v.H, v.R, v.From, id))
+		}
+		return strings.Join(parts, " ; ")
 	}
 	panic("input kind " + i.K)
 }
@@ -293,6 +308,45 @@ func dumpImpl(sm SM, e *env) (text string, probe []string) {
 	return s, probe
 }
 
+// dumpNorm is the implementation's state up to Model.st_sim: all scalar fields, and the round data of every cell of
+// the vote counter - without the empty map entries getRoundData leaves behind for rejected messages.
+func emptyBallots(b votecounter.VerifBallots[Addr]) bool {
+	return len(b.Ballots) == 0 && b.Total == 0 && b.PerVoteType[votecounter.Prevote] == 0 && b.PerVoteType[votecounter.Precommit] == 0
+}
+func nonEmptyRounds(m map[types.Round]votecounter.VerifRound[Val, Hash, Addr]) map[types.Round]votecounter.VerifRound[Val, Hash, Addr] {
+	out := map[types.Round]votecounter.VerifRound[Val, Hash, Addr]{}
+	for r, d := range m {
+		if d.Proposal == nil && d.Uncounted == 0 && len(d.PerID) == 0 && emptyBallots(d.Nil) && emptyBallots(d.All) {
+			continue
+		}
+		out[r] = d
+	}
+	return out
+}
+func dumpNorm(sm SM, e *env) string {
+	st, vc, ok := tendermint.VerifInspect[Val, Hash, Addr](sm)
+	if !ok {
+		hx.Fatalf("tendermint.VerifInspect: not a state machine created by tendermint.New")
+	}
+	d := vc.VerifDump()
+	s := strings.Join([]string{"S", strconv.FormatUint(uint64(st.Height), 10), strconv.Itoa(int(st.Round)), strconv.Itoa(int(st.Step)),
+		valStr(st.LockedValue), strconv.Itoa(int(st.LockedRound)), valStr(st.ValidValue), strconv.Itoa(int(st.ValidRound)),
+		b01(st.TimeoutPrevoteScheduled), b01(st.TimeoutPrecommitScheduled), b01(st.LockedValueAndOrValidValueSet), b01(st.IsHeightStarted),
+		strconv.FormatUint(uint64(st.LastTriggerSync), 10), strconv.FormatUint(uint64(st.LastQuorum), 10), strconv.Itoa(e.nval)}, " ")
+	s += " # VC " + strconv.FormatUint(uint64(d.Height), 10) + " " + roundsStr(nonEmptyRounds(d.Rounds))
+	hs := make([]uint64, 0, len(d.Future))
+	for h := range d.Future {
+		if uint64(h) >= uint64(d.Height) && len(nonEmptyRounds(d.Future[h])) > 0 {
+			hs = append(hs, uint64(h))
+		}
+	}
+	sort.Slice(hs, func(a, b int) bool { return hs[a] < hs[b] })
+	for _, h := range hs {
+		s += fmt.Sprintf(" F%d(%s)", h, roundsStr(nonEmptyRounds(d.Future[types.Height(h)])))
+	}
+	return s
+}
+
 // ---------- canonical text of actions (same format as the oracle prints) ----------
 func idStr(h *Hash) string {
 	if h == nil {
@@ -367,8 +421,54 @@ func apply(sm SM, i In) []string {
 		return canon(sm.ProcessPrecommit(&Precommit{MessageHeader: hdr, ID: id}))
 	case "to":
 		return canon(sm.ProcessTimeout(types.Timeout{Step: types.Step(i.Step), Height: types.Height(i.H), Round: types.Round(i.R)}))
+	case "sync":
+		p := i.Sync[0]
+		v := Val(p.Val)
+		prop := &Proposal{MessageHeader: types.MessageHeader[Addr]{Height: types.Height(p.H), Round: types.Round(p.R), Sender: Addr{uint64(p.From)}},
+			ValidRound: types.Round(p.VR), Value: &v}
+		pcs := make([]Precommit, 0, len(i.Sync)-1)
+		for _, x := range i.Sync[1:] {
+			var xid *Hash
+			if x.ID >= 0 {
+				xid = &Hash{uint64(x.ID)}
+			}
+			pcs = append(pcs, Precommit{MessageHeader: types.MessageHeader[Addr]{Height: types.Height(x.H), Round: types.Round(x.R), Sender: Addr{uint64(x.From)}}, ID: xid})
+		}
+		return canon(sm.ProcessSync(prop, pcs))
 	}
 	panic("input kind")
+}
+
+// walEntry rebuilds the WAL entry a WriteWAL action carried from its canonical text (ws: wp: wv: wc: wt:)
+func walEntry(a string) wal.Entry[Val, Hash, Addr] {
+	tag, body, _ := strings.Cut(a, ":")
+	f := strings.Split(body, ",")
+	num := func(s string) int { n, _ := strconv.Atoi(s); return n }
+	u := func(s string) uint64 { n, _ := strconv.ParseUint(s, 10, 64); return n }
+	hdr := func() types.MessageHeader[Addr] {
+		return types.MessageHeader[Addr]{Height: types.Height(u(f[0])), Round: types.Round(num(f[1])), Sender: Addr{u(f[2])}}
+	}
+	vid := func() *Hash {
+		if f[3] == "-" {
+			return nil
+		}
+		return &Hash{u(f[3])}
+	}
+	switch tag {
+	case "ws":
+		h := wal.Start(u(f[0]))
+		return &h
+	case "wp":
+		v := Val(u(f[4]))
+		return &wal.Proposal[Val, Hash, Addr]{MessageHeader: hdr(), ValidRound: types.Round(num(f[3])), Value: &v}
+	case "wv":
+		return &wal.Prevote[Hash, Addr]{MessageHeader: hdr(), ID: vid()}
+	case "wc":
+		return &wal.Precommit[Hash, Addr]{MessageHeader: hdr(), ID: vid()}
+	case "wt":
+		return &wal.Timeout{Step: types.Step(num(f[0])), Height: types.Height(u(f[1])), Round: types.Round(num(f[2]))}
+	}
+	panic("wal entry " + a)
 }
 
 // lockstep of one real instance with one oracle process
@@ -380,6 +480,8 @@ type pair struct {
 	or     *hx.Oracle
 	c   *Case
 	log []string // "input => actions"
+	wal  []string // the entries of the WriteWAL actions the instance returned, in order
+	acts []string // every action it returned, in order
 }
 
 func newPair(or *hx.Oracle, c *Case, self int) *pair {
@@ -399,6 +501,12 @@ func (p *pair) feed(i In) (acts []string, diff string) {
 	rep := p.or.Ask("in "+i.String()+" | "+strings.Join(acts, " "), 1)[0]
 	impl := fmt.Sprintf("0 %d %s", uint64(p.sm.Height()), a)
 	p.log = append(p.log, i.String()+" => "+a)
+	for _, x := range acts {
+		if strings.HasPrefix(x, "w") {
+			p.wal = append(p.wal, x)
+		}
+	}
+	p.acts = append(p.acts, acts...)
 	if rep != impl {
 		return acts, fmt.Sprintf("input %q: model %q, implementation %q", i.String(), rep, impl)
 	}
@@ -435,6 +543,100 @@ func stateDiff(a, b string) string {
 	return strings.Join(out, " ")
 }
 
+// walCheck: ProcessWAL.  The entries of the WriteWAL actions the live instance p returned are fed, in order, through
+// ProcessWAL into a second real instance and a second model (Model.process_wal); after every call the returned
+// actions and the whole state of the replay instance must equal the model's.  At the end, if the live inputs kept
+// the log discipline (Model.wal_disciplined - the hypothesis of C12_wal_replay_same_state), the replayed
+// implementation must be in the same state as the live one (dumpNorm = Model.st_sim) and must have returned the
+// same actions; the same is asked of the two models (st_sim_b, acts_eqb).  Returns a violation class ("" = fine).
+type walRes struct {
+	class, detail string
+	noInput       bool
+	disciplined   bool
+	same          bool
+	broke         string // which clause of the log discipline the first undisciplined input broke
+}
+
+func walCheck(ctx *hx.Ctx, p *pair) walRes {
+	or := p.or
+	or.Ask("walnew\nfq 1", 1)
+	curM = p.c.M
+	sm2, e2 := newSM(p.c, p.c.Self)
+	var acts2 []string
+	var mism *walRes // first difference between the replay instance and its model (the replay goes on without the model)
+	for k, w := range p.wal {
+		acts := canon(sm2.ProcessWAL(walEntry(w)))
+		acts2 = append(acts2, acts...)
+		kind, _, _ := strings.Cut(w, ":")
+		if ctx != nil {
+			ctx.Hist["wal-replay:entry:"+kind]++
+		}
+		if mism != nil {
+			continue
+		}
+		a := "-"
+		if len(acts) > 0 {
+			a = strings.Join(acts, " ")
+		}
+		rep := or.Ask("wal "+w+" | "+strings.Join(acts, " "), 1)[0]
+		impl := fmt.Sprintf("0 %d %s", uint64(sm2.Height()), a)
+		if rep != impl {
+			mism = &walRes{class: "wal-replay:step-mismatch:" + kind, noInput: true,
+				detail: fmt.Sprintf("ProcessWAL of entry %d %q on the replay instance: model %q, implementation %q", k, w, rep, impl)}
+			continue
+		}
+		st, probe := dumpImpl(sm2, e2)
+		mst := or.Ask("wdump "+strings.Join(probe, ","), 1)[0]
+		if mst != st {
+			mism = &walRes{class: "wal-replay:state-mismatch:" + kind, noInput: true,
+				detail: fmt.Sprintf("ProcessWAL of entry %d %q: state of the replay instance after the call: model %q, implementation %q", k, w, stateDiff(mst, st), stateDiff(st, mst))}
+		}
+	}
+	f := strings.Fields(or.Ask("walcmp", 1)[0])
+	wd, msim, macts, rdisc, rcodes, rndv, mself := f[0] == "1", f[1] == "1", f[2] == "1", f[3] == "1", f[4], f[5] == "1", f[6] == "1"
+	live, replayed := dumpNorm(p.sm, p.env), dumpNorm(sm2, e2)
+	sameState := live == replayed
+	sameActs := strings.Join(acts2, " ") == strings.Join(p.acts, " ")
+	res := walRes{disciplined: wd, same: sameState && sameActs, broke: f[7]}
+	if mism != nil {
+		// the correspondence broke; is this run a failing input of the property predicate itself?
+		if wd && !res.same {
+			res.class = "wal-replay:state-differs"
+			if sameState {
+				res.class = "wal-replay:actions-differ"
+			}
+			res.detail = fmt.Sprintf("the inputs keep the log discipline, but the instance fed its log through ProcessWAL does not end like the live one: state live %q, replayed %q; actions live %q, replayed %q (first difference from the model: %s)",
+				stateDiff(live, replayed), stateDiff(replayed, live), stateDiff(strings.Join(p.acts, " "), strings.Join(acts2, " ")), stateDiff(strings.Join(acts2, " "), strings.Join(p.acts, " ")), mism.detail)
+			return res
+		}
+		mism.disciplined, mism.same, mism.broke = wd, res.same, f[7]
+		return *mism
+	}
+	if rdisc && (rcodes != "-" || !rndv) {
+		res.class = "wal-replay:local-safety:codes=" + rcodes + ":no_double_vote=" + strconv.FormatBool(rndv)
+		res.detail = "the trace of the replay instance (ProcessWAL calls) fails the local safety monitor; log: " + strings.Join(p.wal, " ")
+		return res
+	}
+	if !wd {
+		return res
+	}
+	switch {
+	case !sameState:
+		res.class = "wal-replay:state-differs"
+		res.detail = fmt.Sprintf("the inputs keep the log discipline, but the instance fed its log through ProcessWAL is not in the state of the live one: live %q, replayed %q; log: %s",
+			stateDiff(live, replayed), stateDiff(replayed, live), strings.Join(p.wal, " "))
+	case !sameActs:
+		res.class = "wal-replay:actions-differ"
+		res.detail = fmt.Sprintf("the inputs keep the log discipline, but the replay returned other actions: live %q, replay %q",
+			stateDiff(strings.Join(p.acts, " "), strings.Join(acts2, " ")), stateDiff(strings.Join(acts2, " "), strings.Join(p.acts, " ")))
+	case !msim || !macts || !mself:
+		res.class = "wal-replay:model-contradicts-theorem"
+		res.noInput = true
+		res.detail = fmt.Sprintf("extracted model on a log-disciplined run: st_sim_b=%v acts_eqb=%v wal_replay_same=%v (C12_wal_replay_same_state_b says true)", msim, macts, mself)
+	}
+	return res
+}
+
 type auditRes struct {
 	disc  bool
 	codes string
@@ -452,6 +654,7 @@ type gen struct {
 	c       *Case
 	n       int // validators
 	wild    bool
+	driver  bool // like consensus/driver: ProcessStart(0) is the first call of every height
 	curR    int
 	started bool
 	sched   []In // timeouts the instance asked for
@@ -459,6 +662,7 @@ type gen struct {
 	sent    []In
 	queue   []In
 	vals    []uint64
+	lastSync string
 }
 
 func (g *gen) pickVal() uint64 { return g.vals[g.r.Intn(len(g.vals))] }
@@ -546,6 +750,9 @@ func (g *gen) next(cur uint64) In {
 		g.queue = g.queue[1:]
 		return i
 	}
+	if !g.started && g.driver {
+		return In{K: "start", R: 0}
+	}
 	if !g.started {
 		x := g.r.Intn(100)
 		if x < 70 || (!g.wild && x < 80) {
@@ -606,10 +813,12 @@ func (g *gen) next(cur uint64) In {
 		if len(g.own) > 0 {
 			return g.own[g.r.Intn(len(g.own))]
 		}
-	case x < 97:
+	case x < 95:
 		if len(g.sent) > 0 {
 			return g.sent[g.r.Intn(len(g.sent))]
 		}
+	case x < 98:
+		return g.sync(cur)
 	default:
 		return In{K: "start", R: g.r.Intn(2)}
 	}
@@ -619,6 +828,87 @@ func (g *gen) next(cur uint64) In {
 		return i
 	}
 	return In{K: "pv", H: cur, R: g.curR, From: g.pickSender(), ID: g.pickID()}
+}
+
+func (g *gen) perm() []int {
+	order := make([]int, g.n)
+	for i := range order {
+		order[i] = i
+	}
+	for i := len(order) - 1; i > 0; i-- {
+		j := g.r.Intn(i + 1)
+		order[i], order[j] = order[j], order[i]
+	}
+	return order
+}
+
+// sync: one ProcessSync call - a proposal and a list of precommits: enough of them for the proposal's id at its
+// height and round (valid), too few (insufficient), for another height (wrong-height: the next one - future buffer
+// and TriggerSync path - or the previous one), for another round (wrong-round), or a mix (other ids, nil,
+// duplicates, non-validators, an empty list)
+func (g *gen) sync(cur uint64) In {
+	h, r := cur, g.curR
+	if g.r.Chance(25) {
+		r = g.pickRound()
+	}
+	kind := []string{"valid", "valid", "insufficient", "wrong-height", "wrong-round", "mixed"}[g.r.Intn(6)]
+	v := g.pickVal()
+	vr := -1
+	if r > 0 && g.r.Chance(30) {
+		vr = g.r.Intn(r)
+	}
+	ph := h
+	if kind == "wrong-height" && g.r.Chance(40) {
+		ph = h + 1 // the whole sync is for the next height
+	}
+	from := g.proposerOf(ph, r)
+	if g.r.Chance(6) {
+		from = g.pickSender()
+	}
+	in := In{K: "sync", Sync: []In{{K: "prop", H: ph, R: r, From: from, VR: vr, Val: v}}}
+	id := int64(vid(v))
+	order := g.perm()
+	k := g.n
+	pch, pcr := ph, r
+	switch kind {
+	case "valid":
+		k = g.n - g.r.Intn(2)
+	case "insufficient":
+		k = g.r.Intn(g.n/2 + 1)
+	case "wrong-height":
+		if ph == h {
+			pch = h + 1
+			if h > 0 && g.r.Chance(30) {
+				pch = h - 1
+			}
+		}
+	case "wrong-round":
+		pcr = r + 1 + g.r.Intn(2)
+		if r > 0 && g.r.Chance(40) {
+			pcr = r - 1
+		}
+	}
+	for _, s := range order[:k] {
+		x := In{K: "pc", H: pch, R: pcr, From: s, ID: id}
+		if kind == "mixed" {
+			x.ID = g.pickID()
+			if g.r.Chance(15) {
+				x.From = g.pickSender()
+			}
+			if g.r.Chance(15) {
+				x.R = g.pickRound()
+			}
+			if g.r.Chance(10) {
+				x.H = g.pickHeight(cur)
+			}
+		}
+		in.Sync = append(in.Sync, x)
+		if kind == "mixed" && g.r.Chance(15) {
+			in.Sync = append(in.Sync, x) // duplicate
+		}
+	}
+	g.lastSync = kind
+	return in
 }
 
 // observe updates the generator's view from the actions of the instance
@@ -740,6 +1030,19 @@ func shrink(or *hx.Oracle, c *Case, bad func(*Case) bool) *Case {
 	return &cur
 }
 
+// mismatchClass: step-mismatch:<input kind>; a ProcessSync call gets its own class sync:step-mismatch (returned
+// actions) / sync:state-mismatch (internal state after the call)
+func mismatchClass(d string) string {
+	k := tagOf(d)
+	if k == "sync" {
+		if strings.Contains(d, "state after the call") {
+			return "sync:state-mismatch"
+		}
+		return "sync:step-mismatch"
+	}
+	return "step-mismatch:" + k
+}
+
 func tagOf(d string) string {
 	// class: kind of the input + first differing action tag
 	i := strings.Index(d, "input \"")
@@ -772,7 +1075,21 @@ func reportMismatch(ctx *hx.Ctx, or *hx.Oracle, c *Case, idx int) {
 	c.Inputs = c.Inputs[:idx+1]
 	small := shrink(or, c, func(t *Case) bool { k, _, _, _ := runCase(or, t); return k >= 0 })
 	_, d, _, _ := runCase(or, small)
-	ctx.Violation("step-mismatch:"+tagOf(d), "model and implementation disagree: "+d, small, true)
+	ctx.Violation(mismatchClass(d), "model and implementation disagree: "+d, small, true)
+}
+
+// reportWal shrinks a case whose log replay failed (same class) and reports it
+func reportWal(ctx *hx.Ctx, or *hx.Oracle, c *Case, w walRes) {
+	small := shrink(or, c, func(t *Case) bool {
+		k, _, _, p := runCase(or, t)
+		return k < 0 && walCheck(nil, p).class == w.class
+	})
+	_, _, _, p := runCase(or, small)
+	w2 := walCheck(nil, p)
+	if w2.class != w.class {
+		w2, small = w, c
+	}
+	ctx.Violation(w2.class, w2.detail+" ; live run: "+strings.Join(p.log, " ; "), small, w2.noInput)
 }
 
 func reportAudit(ctx *hx.Ctx, or *hx.Oracle, c *Case, a auditRes) {
@@ -896,6 +1213,8 @@ func runSim(ctx *hx.Ctx, ors []*hx.Oracle, r *hx.RNG, sc simCfg, idx int) {
 		id   uint64
 	}
 	var decs []dec
+	var pool []In                 // every message sent so far (broadcasts of correct instances, messages of the Byzantine script)
+	decProp := map[uint64]In{}    // height -> a decided proposal
 	rounds := map[int]int{}
 	failed := false
 	softAt := map[int]int{}
@@ -925,10 +1244,12 @@ func runSim(ctx *hx.Ctx, ors []*hx.Oracle, r *hx.RNG, sc simCfg, idx int) {
 				rounds[to] = num(f[2])
 			case "cm":
 				decs = append(decs, dec{to, uint64(num(f[0])), vid(uint64(num(f[4])))})
+				decProp[uint64(num(f[0]))] = In{K: "prop", H: uint64(num(f[0])), R: num(f[1]), From: num(f[2]), VR: num(f[3]), Val: uint64(num(f[4]))}
 				rounds[to] = 0
 				deliver(to, In{K: "start", R: 0}) // the driver starts the next height at once
 			}
 			if m != nil {
+				pool = append(pool, *m)
 				for _, o := range correct {
 					if o != to {
 						pend = append(pend, netEv{o, *m})
@@ -1002,7 +1323,27 @@ func runSim(ctx *hx.Ctx, ors []*hx.Oracle, r *hx.RNG, sc simCfg, idx int) {
 				}
 				pend = append(pend, netEv{to, In{K: "pc", H: h, R: rd, From: b, ID: id}})
 			}
+			pool = append(pool, pend[len(pend)-1].in)
 			ctx.Hist["sim:byz-msg"]++
+		}
+		// catch-up by ProcessSync: a correct instance that has not decided a height another one decided is handed the
+		// decided proposal and the precommits for it that were really sent (the caller hypothesis of C12_agreement_with_sync)
+		if len(decProp) > 0 && r.Chance(6) {
+			to := correct[r.Intn(len(correct))]
+			h := uint64(pairs[to].sm.Height())
+			if p, ok := decProp[h]; ok {
+				in := In{K: "sync", Sync: []In{p}}
+				for _, m := range pool {
+					if m.K == "pc" && m.H == h && m.R == p.R && m.ID == int64(vid(p.Val)) {
+						in.Sync = append(in.Sync, m)
+					}
+				}
+				ctx.Hist["sim:sync-catch-up"]++
+				deliver(to, in)
+				if failed {
+					return
+				}
+			}
 		}
 		if len(pend) == 0 {
 			break
@@ -1102,9 +1443,16 @@ func main() {
 			if b, _ := auditCase(or, &c); auditBad(b) {
 				ctx.Violation("local-safety:codes="+b.codes+":no_double_vote="+strconv.FormatBool(b.ndv), "replayed", &c, false)
 			}
-			ctx.Violation("step-mismatch:"+tagOf(d), d, &c, true)
+			ctx.Violation(mismatchClass(d), d, &c, true)
 		} else if a.disc && (a.codes != "-" || !a.ndv) {
 			ctx.Violation("local-safety:codes="+a.codes+":no_double_vote="+strconv.FormatBool(a.ndv), "replayed", &c, false)
+		}
+		if k < 0 {
+			w := walCheck(ctx, p)
+			fmt.Printf("log replay: %d entries, log discipline kept: %v, replayed instance in the same state with the same actions: %v\n", len(p.wal), w.disciplined, w.same)
+			if w.class != "" {
+				ctx.Violation(w.class, w.detail, &c, w.noInput)
+			}
 		}
 		ctx.Finish("replay")
 	}
@@ -1123,7 +1471,7 @@ func main() {
 		c := randomCase(gr)
 		wild := n%4 == 3
 		p := newPair(or, c, c.Self)
-		g := &gen{r: gr.Fork(uint64(n)), c: c, n: len(c.Blocks[0].Pows), wild: wild}
+		g := &gen{r: gr.Fork(uint64(n)), c: c, n: len(c.Blocks[0].Pows), wild: wild, driver: n%4 == 1}
 		for v := uint64(1); v <= 3; v++ {
 			g.vals = append(g.vals, v+uint64(gr.Intn(3)))
 		}
@@ -1139,6 +1487,19 @@ func main() {
 			g.sent = append(g.sent, in)
 			acts, d := p.feed(in)
 			ctx.Hist["in:"+in.K]++
+			if in.K == "sync" {
+				out := "no-action"
+				for _, a := range acts {
+					if strings.HasPrefix(a, "cm:") {
+						out = "commit"
+					} else if strings.HasPrefix(a, "ts:") && out != "commit" {
+						out = "trigger-sync"
+					} else if out == "no-action" {
+						out = "actions"
+					}
+				}
+				ctx.Hist["sync:"+g.lastSync+":"+out]++
+			}
 			for _, a := range acts {
 				t, _, _ := strings.Cut(a, ":")
 				seen[t] = true
@@ -1186,6 +1547,27 @@ func main() {
 		}
 		if n < 2 {
 			ctx.Sample(map[string]any{"self": c.Self, "blocks": c.Blocks, "events": firstN(p.log, 10)})
+		}
+		// ProcessWAL: replay the log this run wrote into a second instance + second model
+		w := walCheck(ctx, p)
+		switch {
+		case w.class != "":
+			reportWal(ctx, or, c, w)
+		case w.disciplined:
+			ctx.Hist["wal-replay:log-disciplined-runs(same state required)"]++
+			ctx.Count(fmt.Sprintf("walreplay:%d", n), len(p.wal) > 1)
+		case w.same:
+			ctx.Hist["wal-replay:undisciplined-runs-same-state-anyway"]++
+			ctx.Hist["wal-replay:undisciplined:"+w.broke+":same-state-anyway"]++
+		default:
+			ctx.Hist["wal-replay:undisciplined-runs-different-state"]++
+			ctx.Hist["wal-replay:undisciplined:"+w.broke+":different-state"]++
+		}
+		if g.driver {
+			ctx.Hist[fmt.Sprintf("wal-replay:driver-like-cases:log-discipline-kept=%v", w.disciplined)]++
+		}
+		if n == 1 {
+			ctx.Sample(map[string]any{"wal_replay_of_case": n, "log": firstN(p.wal, 12), "log_discipline_kept": w.disciplined, "same_state_and_actions": w.same})
 		}
 	}
 	ctx.Extra["action_kind_sets"] = tags
@@ -1253,8 +1635,9 @@ func main() {
 	}
 
 	ctx.Finish("thresholds f,q: model = code on 0..700, 2^k+-1, random uint64, and 2q-N>f, 3f<N on the code's values for 1<=N<2^63; " +
-		"state machine: every returned action list + Height() of real tendermint.New instances = extracted step, on adaptive random/adversarial call sequences " +
-		"(equivocation, other rounds/heights, duplicates, echo of own messages, weighted power, proposer and non-proposer, scheduled and arbitrary timeouts; 1/4 of the cases outside the driver's calling discipline); " +
-		"local safety monitor (audit) evaluated on the implementation's trace of every disciplined case; network simulation of real instances + Byzantine script with agreement predicate; " +
-		"non-trivial = the case made the instance broadcast, commit or trigger sync")
+		"state machine: every returned action list + Height() + the whole internal state of real tendermint.New instances = extracted step / process_sync, on adaptive random/adversarial call sequences " +
+		"(equivocation, other rounds/heights, duplicates, echo of own messages, weighted power, proposer and non-proposer, scheduled and arbitrary timeouts, ProcessSync with valid / insufficient / wrong-height / wrong-round / mixed precommit lists; 1/4 of the cases outside the driver's calling discipline, 1/4 with ProcessStart(0) first in every height); " +
+		"ProcessWAL: the log every case wrote is replayed through ProcessWAL into a second real instance and a second model (process_wal), every call compared (actions + whole state), and on every log-disciplined run (wal_disciplined) the replayed instance must equal the live one up to st_sim and have returned the same actions; " +
+		"local safety monitor (audit) evaluated on the implementation's trace of every disciplined case (live and replay instance); network simulation of real instances + Byzantine script + catch-up by ProcessSync from really sent messages, with agreement predicate; " +
+		"non-trivial = the case made the instance broadcast, commit or trigger sync / the replayed log has more than one entry")
 }
